@@ -350,6 +350,14 @@ def main():
     ctx.exes = exes
     ctx.tmpdir = os.path.join(VERIF, "replays", "tmp", "%s-%d" % (prop, os.getpid()))
     os.makedirs(ctx.tmpdir, exist_ok=True)
+    # remove scratch directories left behind by checks that were killed (their pid is no longer alive)
+    for d in glob.glob(os.path.join(VERIF, "replays", "tmp", "*-*")):
+        try:
+            pid = int(d.rsplit("-", 1)[1])
+            if pid != os.getpid() and not os.path.exists("/proc/%d" % pid):
+                shutil.rmtree(d, ignore_errors=True)
+        except ValueError:
+            pass
     ctx.q = queue.Queue(); ctx.stop = threading.Event()
     ctx.lock = threading.Lock()
     ctx.results = 0; ctx.stats = {}; ctx.samples = []; ctx.dkeys = set(); ctx.nontrivial = 0
